@@ -88,7 +88,7 @@ func lfConvert(n promParser.Node, used map[string]bool) (map[string]any, bool) {
 			if x.Without {
 				return nil, false
 			}
-			v := x.Param.(*promParser.StringLiteral).Val
+			v := lfStringArg(x.Param)
 			used[v] = true
 			return map[string]any{"k": "countValuesBy", "g": note(x.Grouping), "v": v, "e": e}, true
 		}
@@ -112,7 +112,7 @@ func lfConvert(n promParser.Node, used map[string]bool) (map[string]any, bool) {
 			return map[string]any{"k": "topk", "e": e}, ok
 		case "label_replace", "label_join":
 			e, ok := lfConvert(x.Args[0], used)
-			dst := x.Args[1].(*promParser.StringLiteral).Val
+			dst := lfStringArg(x.Args[1])
 			used[dst] = true
 			return map[string]any{"k": "labelReplace", "dst": dst, "e": e}, ok
 		case "absent", "absent_over_time":
@@ -175,4 +175,19 @@ func lfSortedList(xs []string) string {
 	}
 	sort.Strings(out)
 	return "[" + strings.Join(out, ",") + "]"
+}
+
+// a string argument may stand in any number of parentheses
+func lfStringArg(e promParser.Expr) string {
+	for {
+		p, ok := e.(*promParser.ParenExpr)
+		if !ok {
+			break
+		}
+		e = p.Expr
+	}
+	if sl, ok := e.(*promParser.StringLiteral); ok {
+		return sl.Val
+	}
+	return ""
 }
